@@ -123,6 +123,7 @@ def _wrap(orig):
                 # after more training): a forward pass cached per (network, coordinates) objects would now be stale
                 STATE['phase'] = 'warm-netchange'
                 ps = [p for p in net.parameters()]
+                saved = [p.detach().clone() for p in ps]
                 try:
                     with torch.no_grad():
                         for p in ps:
@@ -132,8 +133,8 @@ def _wrap(orig):
                     pass
                 finally:
                     with torch.no_grad():
-                        for p in ps:
-                            p.sub_(0.173)
+                        for p, v in zip(ps, saved):
+                            p.copy_(v)          # restored bit for bit
             STATE['phase'] = 'real'
             out = orig(self, net, *coordinates)
             if _concrete(coordinates) and torch.is_tensor(out) and len(FAILS) < 20:
